@@ -80,7 +80,10 @@ def _indented_comment(g: L.G, indent: Optional[str]) -> list:
 
 def realise(desc: dict) -> Any:
     """Builds the node. Raises on an unusable descriptor (callers treat that as 'operation not applicable')."""
-    kind, text = desc['k'], desc['t']
+    kind, text = desc['k'], desc.get('t', '')
+    if kind == 'ctor':
+        from vf.props import c15   # constructed (from_value / from_children) rather than parsed donors
+        return c15.realise(desc['spec'])
     if kind == 'add_expr':
         return parser().parse(text, models.NumberExpr).raw_number_add_expr
     if kind in models.TREE_MODELS:
